@@ -1,6 +1,7 @@
 package main
 
 import (
+	"go/token"
 	"go/types"
 
 	"golang.org/x/tools/go/ssa"
@@ -8,16 +9,26 @@ import (
 
 // offer: a select state that sends a closure on an inbox channel.
 type offer struct {
-	Fn      *ssa.Function // function containing the select
+	Fn      *ssa.Function // the function making the offer (for an API method: the method itself)
 	Sel     *ssa.Select
 	State   int
 	Class   classSet
 	Closure *ssa.Function
 	MC      *ssa.MakeClosure
+	SelFn   *ssa.Function       // function containing the select (Fn, or a private helper Fn hands the closure to)
+	Via     ssa.CallInstruction // the call in Fn that hands the closure to SelFn (nil when direct)
 }
 
-// offersIn lists the inbox offers made in fn (select states that send a function value).
-func (w *World) offersIn(fn *ssa.Function) []offer {
+// pathOpts for enumerating the offering function so that the select is on the path.
+func (o *offer) opts(w *World) pathOpts {
+	if o.SelFn == o.Fn || o.SelFn == nil {
+		return pathOpts{}
+	}
+	selFn := o.SelFn
+	return pathOpts{InlineDepth: 1, Inline: func(_ ssa.CallInstruction, callee *ssa.Function) bool { return callee == selFn }}
+}
+
+func (w *World) directOffers(fn *ssa.Function) []offer {
 	var out []offer
 	for _, op := range w.Comm().byFn[fn] {
 		if op.Kind != "select" {
@@ -28,12 +39,52 @@ func (w *World) offersIn(fn *ssa.Function) []offer {
 			if st.Dir != types.SendOnly {
 				continue
 			}
-			o := offer{Fn: fn, Sel: sel, State: i, Class: st.Class}
+			o := offer{Fn: fn, SelFn: fn, Sel: sel, State: i, Class: st.Class}
 			if mc, ok := st.Send.(*ssa.MakeClosure); ok {
 				o.MC = mc
 				o.Closure = mc.Fn.(*ssa.Function)
 			}
 			out = append(out, o)
+		}
+	}
+	return out
+}
+
+// offersIn lists the inbox offers made in fn: select states that send a function value, in fn
+// itself or in a private helper of the same package to which fn hands the value as an argument
+// (`b.operate(func(s *bState) {...})` with `func (b *Bar) operate(op) { select { case b.inbox <- op: ... } }`).
+func (w *World) offersIn(fn *ssa.Function) []offer {
+	out := w.directOffers(fn)
+	for _, b := range fn.Blocks {
+		for _, in := range b.Instrs {
+			call, ok := in.(*ssa.Call)
+			if !ok {
+				continue
+			}
+			h := call.Call.StaticCallee()
+			if h == nil || h == fn || h.Blocks == nil || h.Pkg != fn.Pkg || h.Parent() != nil || token.IsExported(h.Name()) {
+				continue
+			}
+			for _, o := range w.directOffers(h) {
+				if o.Closure != nil {
+					continue // the helper's own closure: not an offer of fn
+				}
+				par, ok := o.Sel.States[o.State].Send.(*ssa.Parameter)
+				if !ok {
+					continue
+				}
+				for i, q := range h.Params {
+					if q != par || i >= len(call.Call.Args) {
+						continue
+					}
+					d := offer{Fn: fn, SelFn: h, Via: call, Sel: o.Sel, State: o.State, Class: o.Class}
+					if mc, ok := call.Call.Args[i].(*ssa.MakeClosure); ok {
+						d.MC = mc
+						d.Closure = mc.Fn.(*ssa.Function)
+					}
+					out = append(out, d)
+				}
+			}
 		}
 	}
 	return out
